@@ -365,8 +365,10 @@ func (r *transport) handleCacheHit(
 		}
 	}
 
-	req = withConditionalHeaders(req, stored.Data.Header)
-	resp, start, end, err := r.roundTripTimed(req)
+	// The conditional fields are the cache's own: the validation response is handled
+	// (and a stored response selected, freshened and indexed) by the client's request,
+	// so that a Vary field nominating them cannot create a variant per validator.
+	resp, start, end, err := r.roundTripTimed(withConditionalHeaders(req, stored.Data.Header))
 	ctx := internal.RevalidationContext{
 		URLKey:   urlKey,
 		Start:    start,
@@ -419,7 +421,7 @@ func (r *transport) handleStaleWhileRevalidate(
 	noCacheFieldsSeq iter.Seq[string],
 ) (*http.Response, error) {
 	req2 := req.Clone(req.Context())
-	req2 = withConditionalHeaders(req2, stored.Data.Header)
+	condReq := withConditionalHeaders(req2, stored.Data.Header)
 	// Background revalidation is "best effort"; it is not guaranteed to complete
 	// if the program exits before the goroutine finishes. This design choice was
 	// made to keep the API simple and avoid requiring explicit shutdown coordination.
@@ -429,7 +431,7 @@ func (r *transport) handleStaleWhileRevalidate(
 	//
 	// The response returned below belongs to the caller from now on: the goroutine gets
 	// the entry's ID and re-reads the entry instead of sharing the response object.
-	go r.backgroundRevalidate(req2, stored.ID, urlKey, freshness, ccReq)
+	go r.backgroundRevalidate(condReq, req2, stored.ID, urlKey, freshness, ccReq)
 	if noCacheQualified {
 		// Qualified no-cache: the named fields must not be reused without validation
 		for field := range noCacheFieldsSeq {
@@ -450,8 +452,11 @@ func (r *transport) handleStaleWhileRevalidate(
 
 var errStoredResponseChanged = errors.New("httpcache: stored response changed during revalidation")
 
+// backgroundRevalidate sends condReq (the client's request plus the cache's conditional
+// fields) to the origin and handles the answer on behalf of clientReq, a private copy
+// of the client's request.
 func (r *transport) backgroundRevalidate(
-	req *http.Request,
+	req, clientReq *http.Request,
 	storedID string,
 	urlKey string,
 	freshness *internal.Freshness,
@@ -460,6 +465,7 @@ func (r *transport) backgroundRevalidate(
 	ctx, cancel := context.WithTimeout(req.Context(), r.swrTimeout)
 	defer cancel()
 	req = req.WithContext(ctx)
+	clientReq = clientReq.WithContext(ctx)
 	errc := make(chan error, 1)
 	go func() {
 		defer close(errc)
@@ -512,7 +518,7 @@ func (r *transport) backgroundRevalidate(
 			RefIndex:  refIndex,
 		}
 		//nolint:bodyclose // The response is not used, so we don't need to close it.
-		_, err = r.vrh.HandleValidationResponse(revalCtx, req, resp, nil)
+		_, err = r.vrh.HandleValidationResponse(revalCtx, clientReq, resp, nil)
 		errc <- err
 	}()
 
